@@ -375,7 +375,13 @@ func c20RandomQuery(c *core.Ctx) string {
 
 // c20Damage makes a profile invalid for export in one of the ways the exporter checks.
 func c20Damage(c *core.Ctx, p *pb.ClientProfile) {
-	switch c.Rand.Intn(7) {
+	n := c.Rand.Intn(7)
+	// a profile that an earlier damage already stripped of its servers / user can only take the damages that
+	// do not index into them (the thorough tier applies several damages to one profile)
+	if (len(p.Servers) == 0 && (n == 4 || n == 5)) || (p.User == nil && (n == 1 || n == 2)) {
+		n = 0
+	}
+	switch n {
 	case 0:
 		p.ProfileName = proto.String("")
 	case 1:
